@@ -394,6 +394,96 @@ def rule_xlang(ctx, cd):
                 ctx.ob(R, t.rel, f"{lang} {which}: {kind} capacity comes from t.capacity", ok, "" if ok else f"{caps}", m.lineno)
 
 
+def rule_value_initializer(ctx, px):
+    """C++ special methods (copy / move / initializing constructors, also in their allocator-extended flavours) initialise every
+    member from its counterpart; the initializer text comes from filter_value_initializer.  A branch of that filter that forgets
+    the counterpart for one kind of member (`{}` for fixed-length arrays, say) makes objects that travel through those constructors
+    (elements pushed into a pmr vector while decoding) lose their values in one allocator flavour only."""
+    import ast
+    import copy
+
+    from nvsa import symstr
+    R = "R-C03-OPTION-SCOPE"
+    m = px.module("nunavut.lang.cpp")
+    f = m.funcs.get("filter_value_initializer")
+    if f is None:
+        raise AnalysisError("anchor missing: nunavut.lang.cpp.filter_value_initializer")
+
+    def path_values(g):
+        for path in pyfront.enumerate_paths(g.node.body):
+            if path.outcome != "return":
+                continue
+            r = path.stmts[-1]
+            if r.value is None:
+                continue
+            env = {}
+            for st in path.stmts[:-1]:
+                if isinstance(st, (ast.Assign, ast.AnnAssign)) and getattr(st, "value", None) is not None:
+                    tg = st.targets[0] if isinstance(st, ast.Assign) else st.target
+                    if isinstance(tg, ast.Name):
+                        env[tg.id] = symstr._Bind(dict(env)).visit(copy.deepcopy(st.value))
+                    elif isinstance(tg, ast.Tuple) and isinstance(st.value, ast.Tuple) and len(tg.elts) == len(st.value.elts):
+                        for t_, v_ in zip(tg.elts, st.value.elts):
+                            if isinstance(t_, ast.Name):
+                                env[t_.id] = symstr._Bind(dict(env)).visit(copy.deepcopy(v_))
+                elif isinstance(st, ast.AugAssign) and isinstance(st.target, ast.Name) and isinstance(st.op, ast.Add):
+                    prev = env.get(st.target.id, ast.Name(id=st.target.id, ctx=ast.Load()))
+                    env[st.target.id] = ast.BinOp(left=prev, op=ast.Add(), right=symstr._Bind(dict(env)).visit(copy.deepcopy(st.value)))
+            val = ast.fix_missing_locations(symstr._Bind(env).visit(copy.deepcopy(r.value)))
+            terms = pyfront.guard_terms([(symstr._Bind(env).visit(copy.deepcopy(t_)) if not isinstance(t_, str) else t_, p_) for t_, p_ in path.conds])
+            yield terms, val, r
+
+    def take_true(expr, test_txt):
+        class T(ast.NodeTransformer):
+            def visit_IfExp(self, node):
+                self.generic_visit(node)
+                t = ast.unparse(node.test)
+                if t == test_txt:
+                    return node.body
+                if t == f"not {test_txt}":
+                    return node.orelse
+                return node
+        return T().visit(copy.deepcopy(expr))
+
+    def judge(g, inst, sm, depth=0):
+        n = 0
+        bad = []
+        need, req = f"needs_initializing_value({sm})", f"requires_initialization({inst})"
+        for terms, val, r in path_values(g):
+            if (need, False) in terms or (req, False) in terms:
+                continue
+            n += 1
+            v2 = take_true(val, need)
+            txt = ast.unparse(v2)
+            if re.search(rf"\bfilter_id\({re.escape(inst)}\)", txt):
+                continue
+            # the counterpart may be computed by a helper that is given both the member and the special method
+            helper_ok = False
+            for c in ast.walk(v2):
+                if isinstance(c, ast.Call) and isinstance(c.func, ast.Name) and depth < 2:
+                    names = [ast.unparse(a) for a in c.args]
+                    if inst in names and sm in names:
+                        hs = [h for h in px.resolve_call(g, c, by_name_fallback=False) if h.cls is None and h.module is g.module]
+                        if len(hs) == 1:
+                            hp = [a.arg for a in hs[0].node.args.args]
+                            k, b = judge(hs[0], hp[names.index(inst)], hp[names.index(sm)], depth + 1)
+                            if k and not b:
+                                helper_ok = True
+            if not helper_ok:
+                bad.append((r.lineno, txt[:120], [("" if pol else "not ") + e for e, pol in terms][-3:]))
+        return n, bad
+
+    params = [a.arg for a in f.node.args.args]
+    if len(params) < 3:
+        raise AnalysisError("anchor missing: filter_value_initializer(language, instance, special_method)")
+    n, bad = judge(f, params[1], params[2])
+    ctx.ob(R, m.rel, f"{f.short} :: every member that a special method initialises from a value names that value (`[rhs.]<member>`)", n > 0 and not bad,
+           "" if not bad else f"line {bad[0][0]}: returns `{bad[0][1]}` under {bad[0][2]}: the member is value-initialised instead of copied / moved - objects passing "
+           "through the allocator-extended constructors (elements decoded into a pmr container) lose it, and the c++17-pmr / cetl flavours disagree with the others",
+           f.node.lineno)
+    ctx.floor(R + ":value-initializer", n, 1)
+
+
 def run(ctx):
     ctx.explanation = (
         "C03 is decided for necessary conditions of agreement between the sibling implementations: per language the "
@@ -407,7 +497,10 @@ def run(ctx):
     ts = j2front.TemplateSet(ctx.root)
     cd = Codec(ts)
     rule_symmetry(ctx, cd)
+    _codec.rule_bulk_advance(ctx, cd, "ser", "R-C03-SYMMETRY")
+    _codec.rule_bulk_advance(ctx, cd, "des", "R-C03-SYMMETRY")
     rule_option_scope(ctx, cd)
+    rule_value_initializer(ctx, pyfront.PyIndex(ctx.root))
     rule_xlang(ctx, cd)
     # single-language specialisations whose failure makes one target (or one option point) disagree with the others
     _codec.rule_zero_cost(ctx, pyfront.PyIndex(ctx.root), "R-C03-ZEROCOST")
